@@ -245,8 +245,11 @@ def run_programs(ctx, progs, osets, found_by):
             # (C) model correspondence
             ambiguous = o['remove_builtin_exception_brackets'] and any(n in impl_list and n not in unbound for n in rc_names)
             has_fstring_arith = any(isinstance(n, ast.JoinedStr) and any(isinstance(m, ast.BinOp) for m in ast.walk(n)) for n in ast.walk(tree))
-            if ambiguous or (o['constant_folding'] and has_fstring_arith):
-                ctx.bump('out_of_model', 'shadowed-exception-name' if ambiguous else 'fstring-arithmetic')
+            # f-strings are opaque text in the model (and in the canon): a rewrite that reaches into an embedded expression is outside it
+            has_fstring_posonly = any(isinstance(n, ast.JoinedStr) and any(isinstance(m, ast.Lambda) and m.args.posonlyargs for m in ast.walk(n)) for n in ast.walk(tree))
+            opaque_fstring = o['convert_posargs_to_args'] and has_fstring_posonly
+            if ambiguous or (o['constant_folding'] and has_fstring_arith) or opaque_fstring:
+                ctx.bump('out_of_model', 'shadowed-exception-name' if ambiguous else ('fstring-posonly-lambda' if opaque_fstring else 'fstring-arithmetic'))
             else:
                 try:
                     t_reqs.append(transform_request(tree, o, set() if tainted else (unbound & set(impl_list))))
@@ -254,7 +257,7 @@ def run_programs(ctx, progs, osets, found_by):
                 except pyast.OutOfModel as e:
                     ctx.bump('out_of_model', str(e))
             # (O) documented-rewrite canon on the real output, folding judged elsewhere
-            if not o['constant_folding']:
+            if not o['constant_folding'] and not opaque_fstring:
                 try:
                     qtree = ast.parse(out)
                     brackets = set() if (tainted or not o['remove_builtin_exception_brackets']) else (unbound & LIVE_EXC)
